@@ -7,7 +7,8 @@ from .c05 import walk, import_stats
 THEOREMS = ["ZwVerif.C06." + t for t in
             ["cookedChildren_no_resolved_import", "cookedChildren_raw", "cookedChildren_in_place", "partial_units_not_listed",
              "listed_units_not_partial", "attribute_no_name_twice", "go_secondary", "attribute_own_first", "findAttr_own",
-             "findAttr_not_integrated", "findAttr_prefers_specification", "schedule_specification_on_top", "schedule_origin_below"]]
+             "findAttr_not_integrated", "findAttr_prefers_specification", "schedule_specification_on_top", "schedule_origin_below",
+             "cookedBelow_raw", "cooked_unit_is_raw"]]
 
 SAMPLE_ATS = ["name", "type", "decl_line", "decl_file", "declaration", "sibling", "external", "byte_size", "location",
               "specification", "abstract_origin", "object_pointer", "inline", "low_pc", "high_pc", "encoding", "const_value",
